@@ -16,7 +16,7 @@
 (*   obs   st                    projection only                                                            *)
 (* st is optional on every event ("nost": 1 when absent).                  *)
 (***************************************************************************)
-EXTENDS NodeFlow, Track, Dispatch, Bytes, Json, IOUtils, TLC
+EXTENDS NodeFlow, Track, Dispatch, LowLevel, Bytes, Json, IOUtils, TLC
 
 VARIABLES l, cap, cfg, ts, uq, held, bootout, bootms, bootinfo
 ttvars == <<nodes, now, seqOn, ghost, l, cap, cfg, ts, uq, held, bootout, bootms, bootinfo>>
@@ -33,16 +33,28 @@ Decode(bytes) ==
 ForNode(ms, a) == SelectSeq(ms, LAMBDA m : m.addr = a)
 Proj(p) == [i \in 1..Len(p) |-> [seq |-> p[i].seq, ty |-> p[i].ty, data |-> p[i].data]]
 PacketLen(pk) == FoldLeft(LAMBDA acc, m : acc + Len(m), 0, pk)
-CapOk(d, c) == \A k \in 1..Len(d.pk) : Len(d.pk[k]) > 1 => PacketLen(d.pk[k]) <= c
+(* "the packet capacity in force when it was filled": every message handed to the packet buffer is stamped with the
+   capacity in force at that moment (cap changes with MSG_PKT_CAPACITY notices while bytes may still be waiting);
+   a message that is not the first of its packet must fit below the capacity it was stamped with *)
+Stamp(ns) == [a \in DOMAIN ns |-> [ns[a] EXCEPT !.pend =
+                 [i \in DOMAIN @ |-> IF "cap" \in DOMAIN @[i] THEN @[i]
+                                     ELSE [seq |-> @[i].seq, ty |-> @[i].ty, data |-> @[i].data, cap |-> cap]]]]
+PrefixLen(pk, m) == FoldLeft(LAMBDA acc, x : acc + Len(x), 0, SubSeq(pk, 1, m))
+StampAt(s, d, i) == LET a == d.ms[i].addr IN s[a].pend[Cardinality({j \in 1..i : d.ms[j].addr = a})].cap
+CapOk(s, d) == \A k \in 1..Len(d.pk) : Len(d.pk[k]) > 1 =>
+                  LET off == FoldLeft(LAMBDA acc, x : acc + Len(x), 0, SubSeq(d.pk, 1, k - 1)) IN
+                  \A m \in 2..Len(d.pk[k]) : PrefixLen(d.pk[k], m) <= StampAt(s, d, off + m)
 
 CanConsume(ns, d) ==
+    LET s == Stamp(ns) IN
     /\ d.wf
-    /\ CapOk(d, cap)
     /\ \A i \in 1..Len(d.ms) : d.ms[i].addr \in DOMAIN ns /\ d.ms[i].ty < 128
     /\ \A a \in DOMAIN ns : LET w == Proj(ForNode(d.ms, a)) IN
                               /\ Len(w) <= Len(ns[a].pend)
                               /\ w = SubSeq(Proj(ns[a].pend), 1, Len(w))
-Consumed(ns, d) == [a \in DOMAIN ns |-> [ns[a] EXCEPT !.pend = SubSeq(@, Len(ForNode(d.ms, a)) + 1, Len(@))]]
+    /\ CapOk(s, d)
+Consumed(ns, d) == LET s == Stamp(ns) IN
+                   [a \in DOMAIN s |-> [s[a] EXCEPT !.pend = SubSeq(@, Len(ForNode(d.ms, a)) + 1, Len(@))]]
 AllOut(ns) == \A a \in DOMAIN ns : ns[a].pend = <<>>
 
 (* submit a sequence of messages [n, ty, data] one after the other; returns [ns, g] *)
@@ -139,6 +151,26 @@ THl == /\ IsEv("hl")
              /\ StOk(r.ts)
        /\ UNCHANGED <<now, seqOn, cap, cfg, uq, held, bootout, bootms, bootinfo>>
 
+(* a low-level send in normal mode: argument check + encoding (LowLevel), admission / numbering (NodeFlow), no effect
+   on the tracked state *)
+TLl == /\ IsEv("ll")
+       /\ LET sp == LLSpec(Ev.fn, Ev.args)
+              n  == IF LLBroadcast(Ev.fn) THEN <<>> ELSE AddrOf(Ev.na)
+              d  == Decode(Ev.w)
+          IN /\ sp.acc # "unknown"
+             /\ \/ /\ sp.acc \in {"yes", "any"}
+                   /\ LenByte(n, sp.data) <= 127
+                   /\ LET sa == SendAllG(nodes, ghost, <<[n |-> n, ty |-> sp.ty, data |-> sp.data]>>) IN
+                      /\ CanConsume(sa.ns, d)
+                      /\ nodes' = Consumed(sa.ns, d)
+                      /\ ghost' = sa.g
+                \/ /\ sp.acc \in {"no", "any"} \/ LenByte(n, sp.data) > 127
+                   /\ CanConsume(nodes, d)
+                   /\ nodes' = Consumed(nodes, d)
+                   /\ UNCHANGED ghost
+             /\ StOk(ts)
+       /\ UNCHANGED <<now, seqOn, cap, cfg, ts, uq, held, bootout, bootms, bootinfo>>
+
 TTick == /\ IsEv("tick")
          /\ now' = now + Ev.d
          /\ LET d == Decode(Ev.w) IN CanConsume(nodes, d) /\ nodes' = Consumed(nodes, d)
@@ -192,7 +224,7 @@ TStop == /\ IsEv("stop")
                /\ ghost' = sa.g
          /\ UNCHANGED <<now, seqOn, cap, cfg, ts, uq, held, bootout, bootms, bootinfo>>
 
-TNext == TBootWire \/ TBootInfo \/ TBoot \/ THold \/ THeld \/ TStop \/ TStart \/ TUp \/ THl \/ TTick \/ TFlush \/ TObs \/ TDrain \/ TRead
+TNext == TBootWire \/ TBootInfo \/ TBoot \/ THold \/ THeld \/ TStop \/ TStart \/ TUp \/ THl \/ TLl \/ TTick \/ TFlush \/ TObs \/ TDrain \/ TRead
 TSpec == TInit /\ [][TNext]_ttvars
 
 NotAccepted == l <= Len(Tr)
